@@ -6,7 +6,7 @@ import common as C
 PROPS = ["Props/C02.v"]
 OBLIG = ["Oblig/C02Obl.v"]
 for extra_p, extra_o in (("Props/C02Records.v", "Oblig/C01Obl.v"), ("Props/C02Valid.v", "Oblig/C02ValidObl.v"),
-                         ("Props/C02Counts.v", "Oblig/C02CountsObl.v")):
+                         ("Props/C02Counts.v", "Oblig/C02CountsObl.v"), ("Props/C02Reader.v", "Oblig/C02ReaderObl.v")):
     if os.path.exists(os.path.join(C.COQ, extra_p)):
         PROPS.append(extra_p)
         OBLIG.append(extra_o)
@@ -37,7 +37,105 @@ def build(ctx):
         ctx.log("ocaml c02counts", out[-3000:])
         if not ok:
             ctx.diag.append("extracted counts model (WrittenCounts.observe) does not build: " + out[-600:])
+    if os.path.exists(os.path.join(C.COQ, "Extract", "C02READER.v")):
+        ok, out = C.build_ocaml("c02reader")
+        ctx.log("ocaml c02reader", out[-3000:])
+        if not ok:
+            ctx.diag.append("extracted reader-domain model (read_text_valid + write_file_padded) does not build: " + out[-600:])
     return True
+
+
+# ---- reader domain: the real Writer's output of what the real default Reader returns vs the model's
+
+RDRV = os.path.join(C.BUILD, "ocaml", "c02reader", "driver")
+
+
+def reader_run(ctx, n, ntext, sub="rcorr", compare=True):
+    """harness/cmd/c02reader run: texts (witnesses, generated, directed changes, fixtures, random changes, byte
+    noise) through ach.NewReader...Read() and, when accepted, ach.NewWriter; the extracted read_text_valid +
+    stamp + write_file_padded on the same texts.  Lines must be equal whenever both accept and the Writer wrote.
+    The model knows fewer rules than the code (unrecognised checks, SEC specific batch rules; C01's default-reader
+    correspondence classifies those): model accepts / code rejects is counted and skipped, the converse is a
+    mismatch.  The Writer refusing the returned file (File.Validate: file level arithmetic, which Read does not
+    check) is outside "successfully written": counted and skipped."""
+    d = os.path.join(ctx.rundir, sub)
+    os.makedirs(d, exist_ok=True)
+    exe = os.path.join(C.BIN, "c02reader")
+    rc, out = C.sh([exe, "run", "-out", d, "-n", str(n), "-ntext", str(ntext), "-repo", C.REPO,
+                    "-corpus", os.path.join(C.VERIF, "corpus", "C02")], timeout=3000)
+    ctx.log("reader-domain run", out[-1200:])
+    if rc != 0:
+        ctx.diag.append("reader-domain harness crashed rc=%d: %s" % (rc, out[-300:]))
+        return None
+    before = len(ctx.fails)
+    summ = ctx.read_jsonl(os.path.join(d, "oracle.jsonl"))
+    for f in ctx.fails[before:]:
+        f["input"] = f.get("case")
+    if not compare:
+        return summ
+    if not os.path.exists(RDRV):
+        ctx.diag.append("reader-domain correspondence could not run: no driver")
+        return summ
+    rc, out2 = C.sh("%s %s > %s" % (RDRV, os.path.join(d, "cases.txt"), os.path.join(d, "model.txt")), timeout=3000)
+    if rc != 0:
+        ctx.diag.append("extracted reader-domain model crashed: " + out2[-300:])
+    try:
+        m = open(os.path.join(d, "model.txt")).read().splitlines()
+        i = open(os.path.join(d, "impl.txt")).read().splitlines()
+        ds = open(os.path.join(d, "desc.txt")).read().splitlines()
+    except OSError as ex:
+        ctx.diag.append("reader-domain correspondence: missing output (%s)" % ex)
+        return summ
+    if not (len(m) == len(i) == len(ds)):
+        ctx.diag.append("reader-domain correspondence: %d cases, %d model lines, %d implementation lines" % (len(ds), len(m), len(i)))
+    cnt = {"written_same": 0, "written_with_clock_same": 0, "unclosed_batch_same": 0, "rejected_same": 0,
+           "skipped_model_accepts_code_rejects": 0, "skipped_writer_refused": 0}
+    mo, io, co = [], [], []
+    for k in range(min(len(m), len(i), len(ds))):
+        a, b = m[k], i[k]
+        ta, tb = a.split(" ", 1)[0], b.split(" ", 1)[0]
+        if tb == "REJ" and ta in ("W", "LINGER"):
+            cnt["skipped_model_accepts_code_rejects"] += 1
+            continue
+        if tb == "WERR" and ta == "W":
+            cnt["skipped_writer_refused"] += 1
+            continue
+        if a == b:
+            if ta == "W":
+                cnt["written_same"] += 1
+                if a.startswith("W 0 "):
+                    cnt["written_with_clock_same"] += 1
+            elif ta == "LINGER":
+                cnt["unclosed_batch_same"] += 1
+            elif ta == "REJ":
+                cnt["rejected_same"] += 1
+        # long hex lists: keep the evidence short (the first differing record is what matters)
+        if a != b and ta == "W" and tb == "W":
+            la, lb = a.split(" ")[-1].split(","), b.split(" ")[-1].split(",")
+            j = next((x for x in range(min(len(la), len(lb))) if la[x] != lb[x]), min(len(la), len(lb)))
+            a = "W %s records=%d first-difference@%d %s" % (a.split(" ")[1], len(la), j, la[j] if j < len(la) else "-")
+            b = "W %s records=%d first-difference@%d %s" % (b.split(" ")[1], len(lb), j, lb[j] if j < len(lb) else "-")
+        elif ta == "W":
+            a = b = "W same (%d records)" % len(a.split(" ")[-1].split(","))
+        mo.append(a)
+        io.append(b)
+        co.append(ds[k][:300])
+    for name, rows in (("model.f.txt", mo), ("impl.f.txt", io), ("cases.f.txt", co)):
+        with open(os.path.join(d, name), "w") as fh:
+            fh.write("\n".join(rows) + "\n")
+    label = "reader domain: the real Writer's records of the file the real default Reader returns vs write_file_padded of read_text_valid's tree, line by line"
+    ctx.compare(label, os.path.join(d, "model.f.txt"), os.path.join(d, "impl.f.txt"), os.path.join(d, "cases.f.txt"))
+    try:
+        ctx.cov["correspondence"][label].update(cnt)
+    except KeyError:
+        pass
+    if cnt["written_same"] < ctx.scale(700, 7000):
+        ctx.diag.append("reader-domain correspondence: only %d accepted texts were compared line by line" % cnt["written_same"])
+    if cnt["written_with_clock_same"] < 5:
+        ctx.diag.append("reader-domain correspondence: only %d accepted headers without creation time (the clock case)" % cnt["written_with_clock_same"])
+    if cnt["skipped_model_accepts_code_rejects"] * 4 > len(ds):
+        ctx.diag.append("reader-domain correspondence: the model accepts %d of %d texts the code rejects" % (cnt["skipped_model_accepts_code_rejects"], len(ds)))
+    return summ
 
 
 # ---- control counts: the model's written lines and count columns against the real writer's text
@@ -197,6 +295,8 @@ def search(ctx, factor):
         valid_oracle(ctx, None, ctx.scale(1500, 15000) * factor, "vsearch")
     if os.path.exists(os.path.join(C.BIN, "c02counts")):
         counts_oracle(ctx, ctx.scale(600, 6000) * factor, "csearch")
+    if os.path.exists(os.path.join(C.BIN, "c02reader")):
+        reader_run(ctx, ctx.scale(60, 400) * factor, ctx.scale(2400, 24000) * factor, "rsearch", compare=False)
     found = ctx.fails[before:]
     del ctx.fails[before:]
     return found
@@ -231,6 +331,11 @@ def run(ctx):
         counts_corr(ctx)
         summ = counts_oracle(ctx, ctx.scale(600, 6000))
         ctx.add_summary(summ, "control counts oracle")
+    if os.path.exists(os.path.join(C.COQ, "Extract", "C02READER.v")):
+        ctx.assumptions += ["charset.NewReader (in front of the framing: windows-1252 for sniffed non-UTF-8 input, U+FFFD replacement under a declared UTF-8) is outside the model; the statement quantifies over all byte strings, hence over its output (C02_reader_domain_decoded); for texts that are not UTF-8 the model reads what the real decoder delivers",
+                            "time.Now().Format(\"1504\") is four characters of valid UTF-8 (the clock of C02_reader_domain)"]
+        summ = reader_run(ctx, ctx.scale(60, 400), ctx.scale(2600, 24000))
+        ctx.add_summary(summ, "reader domain oracle")
 
 
 def replay(path):
@@ -246,6 +351,10 @@ def replay(path):
         src, counts_text = None, False
     if src in ("counts", "counts-gen") or counts_text:
         rc, out = C.sh([os.path.join(C.BIN, "c02counts"), "replay", path], timeout=600)
+        print(out)
+        return 1 if rc != 0 else 0
+    if src == "reader-domain":
+        rc, out = C.sh([os.path.join(C.BIN, "c02reader"), "replay", path], timeout=600)
         print(out)
         return 1 if rc != 0 else 0
     if src == "valid-width":
